@@ -33,6 +33,8 @@ CONSTANTS BaseMags,     \* magnitudes (ticks) of the left operand
           Abss,         \* subset of DOMAIN AbsTol
           Spellings,    \* unit spellings of an operand: subset of {"base", "kilo", "milli"}
           Families,     \* subset of {"boundary", "mass", "complex", "dimension", "vector"}
+          TickExps,     \* decimal exponents s of the tick of the "tiny" family, written 40 + s (one tick is
+                        \* 10^(s-3) SI units there: the same comparison at magnitudes 1e-13 ... 1e-30)
           MaxVec        \* vectors of 0..MaxVec components
 
 VARIABLES case, i, verdict
@@ -107,8 +109,11 @@ Allowed(c) ==
 -----------------------------------------------------------------------------
 (* The generated comparisons.                                                *)
 Op(k, re, im, d, u) == [k |-> k, re |-> re, im |-> im, d |-> d, u |-> u]
+\* s10: the decimal exponent of the scale the integers of this comparison are counted in (values and the absolute
+\* tolerance alike).  The verdict is about ratios and differences of these integers only: it does not depend on it.
 Cmp(fam, l, r, rel, an, dimarg) ==
-  [fam |-> fam, l |-> l, r |-> r, rel |-> RelTol[rel], reln |-> rel, an |-> AbsTol[an], ann |-> an, dimarg |-> dimarg]
+  [fam |-> fam, l |-> l, r |-> r, rel |-> RelTol[rel], reln |-> rel, an |-> AbsTol[an], ann |-> an, dimarg |-> dimarg,
+   s10 |-> 0]
 
 T(b, rel) == Floor(RelTol[rel][1] * b, RelTol[rel][2])             \* the tolerance at magnitude b, rounded down
 Deltas(b, rel, an) ==
@@ -127,6 +132,16 @@ InitBoundary ==
       LET p == <<Op("qty", s * b, 0, Len1, sp[1])>>   q == <<Op("qty", s * (b + x), 0, Len1, sp[2])>>
       IN  case = IF swap THEN Cmp("boundary", [q EXCEPT ![1].u = sp[1]], [p EXCEPT ![1].u = sp[2]], rel, an, NoDim)
                  ELSE Cmp("boundary", p, q, rel, an, NoDim)
+
+\* the same straddling values at tiny magnitudes (a tick of 10^(s-3) SI units), bare numbers included
+InitTiny ==
+  \E b \in {m \in BaseMags : m <= 1000000}, rel \in Rels, an \in Abss, sgn \in {1, -1}, swap \in BOOLEAN, s \in TickExps,
+     k \in {"qty", "num"} :
+    \E x \in UNION {Signed(y) : y \in Deltas(b, rel, an)} :
+      LET d == IF k = "qty" THEN Len1 ELSE D1
+          p == <<Op(k, sgn * b, 0, d, "base")>>   q == <<Op(k, sgn * (b + x), 0, d, "base")>>
+          c == IF swap THEN Cmp("tiny", q, p, rel, an, NoDim) ELSE Cmp("tiny", p, q, rel, an, NoDim)
+      IN  case = [c EXCEPT !.s10 = s - 40]
 
 \* the same straddling values for dimensions with a mass exponent (the SI unit of mass is the kilogram)
 Mas1 == BaseDim("M")
@@ -163,6 +178,7 @@ InitVector ==
 -----------------------------------------------------------------------------
 (* The comparison machine.                                                   *)
 Init == /\ \/ ("boundary" \in Families /\ InitBoundary)
+           \/ ("tiny" \in Families /\ InitTiny)
            \/ ("mass" \in Families /\ InitMass)
            \/ ("complex" \in Families /\ InitComplex)
            \/ ("dimension" \in Families /\ InitDimension)
@@ -202,6 +218,8 @@ SymmetricWithoutAbs == AtStart /\ case.an < 0 /\ ~case.dimarg.given =>
 \* the verdict never depends on the units the operands are written in
 UnitIndependent == AtStart => \A j \in Comps, s1 \in Spellings \cup {"base"}, s2 \in Spellings \cup {"base"} :
                      CA([case.l[j] EXCEPT !.u = s1], [case.r[j] EXCEPT !.u = s2]) = CA(case.l[j], case.r[j])
+\* nor on the scale the values are counted in
+ScaleIndependent == AtStart => Allowed([case EXCEPT !.s10 = 0]) = Allowed(case)
 \* inequivalent dimensions of two non-zero operands never pass; an angle factor never matters
 DimensionGuard == AtStart => \A j \in Comps :
                     LET a == case.l[j]  b == case.r[j] IN
@@ -226,7 +244,7 @@ PassNeedsAll == verdict = "pass" => Len(case.l) = Len(case.r) /\ \A j \in Comps 
 DimSeq(d) == <<d["L"], d["M"], d["T"], d["I"], d["K"], d["N"], d["J"], d["A"]>>
 OpJ(a) == [k |-> a.k, re |-> a.re, im |-> a.im, d |-> DimSeq(a.d), u |-> a.u]
 CaseJ == [fam |-> case.fam, l |-> [j \in DOMAIN case.l |-> OpJ(case.l[j])], r |-> [j \in DOMAIN case.r |-> OpJ(case.r[j])],
-          rel |-> case.reln, an |-> case.ann,
+          rel |-> case.reln, an |-> case.ann, s10 |-> case.s10,
           dimarg |-> IF case.dimarg.given THEN DimSeq(case.dimarg.d) ELSE <<>>]
 Emit == Terminal => PrintT(ToJson([case |-> CaseJ, verdict |-> verdict]))
 =============================================================================
